@@ -28,8 +28,15 @@ panic in Rust is sequenced exactly in Rust evaluation order:
   S { f, g: e }          the list of field values in declaration order of struct S
   v.f (v : S)            nth k v 0
 
-`+ - *` are accepted only between compile-time constants (literals, consts, unrolled loop
-variables) whose result stays in range: no overflow semantics is modelled.  Anything outside
+  while c { body }       a fuelled Fixpoint leaf_wire_<fn>_loop<k> over the `let mut` locals the body
+                         assigns (in declaration order; `break` = return the state), called with
+                         fuel S (length of the byte-slice parameters); out of fuel is `Fuel`
+  v.push(e)              v' := v ++ [e]        SmallVec::new() / Vec::new(): []
+
+`+ - *` between compile-time constants (literals, consts, unrolled loop variables) must stay in
+range; `+` / `-` on non-constant unsigned operands are CHECKED (`if a + b <? 2^w then .. else
+Oob`: overflow is the debug-build panic; the equivalence lemma carries the length bound that
+rules it out, so the wrapping release semantics agrees).  Anything outside
 the subset makes the translator FAIL for that function (JSON summary, "failed"); check.py
 reports that as a broken obligation.  Nothing is skipped except the tracing/log macros.
 """
@@ -59,6 +66,7 @@ FUNCS = [
     ("parse_srt_ack", "parsers.rs"),
     ("extract_keepalive_timestamp", "parsers.rs"),
     ("extract_keepalive_conn_info", "parsers.rs"),
+    ("parse_srtla_ack", "parsers.rs"),
     ("create_reg1_packet", "builders.rs"),
     ("create_reg2_packet", "builders.rs"),
     ("create_keepalive_packet", "builders.rs"),
@@ -168,7 +176,21 @@ class WP(P):
             body = self.block()
             self.eat(";")
             return ("for", var, lo, hi, body)
-        if v in ("while", "loop", "break", "continue", "unsafe", "fn", "const", "static", "use", "struct", "#"):
+        if v == "while":
+            self.take()
+            if self.peek() == ("id", "let"):
+                raise TErr("while-let not supported")
+            c = self.expr(no_struct=True)
+            self.expect("{")
+            body = self.block()
+            self.eat(";")
+            return ("while", c, body)
+        if v == "break":
+            self.take()
+            if not self.eat(";"):
+                raise TErr("break with a label or value")
+            return ("break",)
+        if v in ("loop", "continue", "unsafe", "fn", "const", "static", "use", "struct", "#"):
             raise TErr("statement `%s` not supported" % v)
         return P.stmt(self)
 
@@ -283,6 +305,9 @@ def norm_type(t, cx):
         return "Option<%s>" % norm_type(m.group(1), cx)
     if t in cx.structs:
         return t
+    m = re.match(r"(?:SmallVec|Vec)<(\w+)(?:,[^>]*)?>$", t)
+    if m and m.group(1) in INTS:
+        return "Vec<%s>" % m.group(1)
     raise TErr("type %s not supported" % t)
 
 
@@ -322,7 +347,7 @@ def coq_type(t):
         return "list Z"
     if t.startswith("Option<"):
         return "option (%s)" % coq_type(t[7:-1])
-    return "list Z"          # struct: list of its fields in declaration order
+    return "list Z"          # Vec<int>; struct: list of its fields in declaration order
 
 
 def is_bytes(t):
@@ -334,6 +359,8 @@ def compat(a, b):
         return True
     if a.startswith("Option<") and b.startswith("Option<"):
         return compat(a[7:-1], b[7:-1])
+    if a.startswith("Vec<") and b.startswith("Vec<"):
+        return compat(a[4:-1], b[4:-1])
     return a == b
 
 
@@ -344,6 +371,8 @@ def unify(a, b, what):
         return b
     if a.startswith("Option<") and b is not None and b.startswith("Option<"):
         return "Option<%s>" % unify(a[7:-1], b[7:-1], what)
+    if a.startswith("Vec<") and b is not None and b.startswith("Vec<"):
+        return "Vec<%s>" % unify(a[4:-1], b[4:-1], what)
     return a
 
 
@@ -382,6 +411,10 @@ class Cx:
         self.ret = None
         self.used = set(RESERVED)
         self.tmp = "x"
+        self.fn = None
+        self.loop = None          # inside a while body: {"name", "inv", "state", "fuel"}
+        self.loops = []           # emitted Fixpoints
+        self.fuel_params = []     # coq names of the byte-slice parameters (fuel bound)
 
     def fresh(self, base=None):
         base = base or self.tmp
@@ -463,6 +496,8 @@ def ev(e, env, cx, k):
         def ktry(v):
             if not (v.t and v.t.startswith("Option<")):
                 raise TErr("`?` on %s" % v.t)
+            if cx.loop is not None:
+                raise TErr("`?` inside a while body")
             if not (cx.ret and cx.ret.startswith("Option<")):
                 raise TErr("`?` in a function returning %s" % cx.ret)
             y = cx.fresh()
@@ -608,7 +643,15 @@ def ev_bin(e, env, cx, k):
         if op in ("+", "-", "*"):
             t = unify(va.t, vb.t, op)
             if va.c is None or vb.c is None:
-                raise TErr("`%s` on non-constant operands (overflow semantics not modelled)" % op)
+                # checked arithmetic: overflow is a panic (debug-build semantics; the equivalence lemmas
+                # carry the length bound that rules it out, so the wrapping release semantics agrees)
+                if t not in UNS or op == "*":
+                    raise TErr("`%s` on non-constant %s operands (overflow semantics not modelled)" % (op, t))
+                va2, vb2 = typed(va, t, op), typed(vb, t, op)
+                y = cx.fresh()
+                bound = {64: "two64", 32: "two32"}.get(UNS[t], str(2 ** UNS[t]))
+                test = "(%s <? %s)" % (y, bound) if op == "+" else "(0 <=? %s)" % y
+                return "(let %s := (%s %s %s) in (if %s then %s else Oob))" % (y, va2.s, op, vb2.s, test, k(Val(y, t)))
             c = va.c + vb.c if op == "+" else va.c - vb.c if op == "-" else va.c * vb.c
             if not fits(c, t or "usize"):
                 raise TErr("constant arithmetic overflows %s" % (t or "usize"))
@@ -645,6 +688,8 @@ def ev_fcall(e, env, cx, k):
                 s = "(to_i32 %s)" % s
             return k(Val(s, ty))
         return ev_list(arr[1], env, cx, kfb)
+    if name == "new" and len(path) == 2 and path[0] in ("SmallVec", "Vec") and not args:
+        return k(Val("(@nil Z)", "Vec<?>"))
     if name in cx.registry and len(path) == 1:
         callee = cx.registry[name]
         if len(args) != len(callee["ptypes"]):
@@ -666,7 +711,7 @@ def ev_method(e, env, cx, k):
     name, recv, args = e[1], e[2], e[3]
     if name == "len" and not args:
         def klen(v):
-            if not is_bytes(v.t):
+            if not (is_bytes(v.t) or (v.t or "").startswith("Vec<")):
                 raise TErr("len() on %s" % v.t)
             return k(Val("(blen %s)" % v.s, "usize"))
         return ev(recv, env, cx, klen)
@@ -712,6 +757,108 @@ def loop_body_ok(stmts):
             loop_body_ok(s[1][3])
             continue
         raise TErr("statement %s inside a for body not supported" % s[0])
+
+
+def state_tuple(names, env):
+    parts = [env[n].s for n in names]
+    return parts[0] if len(parts) == 1 else "(" + ", ".join(parts) + ")"
+
+
+def walk_vars(x, acc):
+    if isinstance(x, tuple):
+        if x and x[0] == "var" and len(x) == 2 and isinstance(x[1], str):
+            acc.append(x[1])
+        for y in x[1:] if x and isinstance(x[0], str) else x:
+            walk_vars(y, acc)
+    elif isinstance(x, list):
+        for y in x:
+            walk_vars(y, acc)
+    return acc
+
+
+def assigned_in(stmts, acc):
+    for s in stmts:
+        if s[0] == "assign":
+            if s[1][0] != "var":
+                raise TErr("assignment target not a local")
+            acc.append(s[1][1])
+        elif s[0] == "exprstmt" and s[1][0] == "call" and s[1][1] == "push" and s[1][2][0] == "var":
+            acc.append(s[1][2][1])
+        elif (s[0] == "exprstmt" and s[1][0] == "call" and s[1][1] == "copy_from_slice"
+              and s[1][2][0] == "index" and s[1][2][1][0] == "var"):
+            acc.append(s[1][2][1][1])
+        elif s[0] in ("expr", "tail") and s[1][0] == "if":
+            assigned_in(s[1][2], acc)
+            assigned_in(s[1][3], acc)
+        elif s[0] in ("while", "for"):
+            raise TErr("nested loop")
+        elif s[0] in ("let", "skip", "break", "exprstmt"):
+            continue
+        else:
+            raise TErr("statement %s inside a while body not supported" % s[0])
+    return acc
+
+
+def run_while(s, rest, env, cx):
+    """`while c { body }`  ->  a fuelled Fixpoint over the locals the body assigns.
+    fuel = S (total length of the byte-slice parameters); running out of fuel is [Fuel]."""
+    _, cond, body = s
+    if cx.loop is not None:
+        raise TErr("nested loop")
+    if not cx.fuel_params:
+        raise TErr("while: no byte-slice parameter to bound the fuel")
+    clash = declared(body) & set(env)
+    if clash:
+        raise TErr("while body shadows %s" % sorted(clash))
+    state = []
+    for n in assigned_in(body, []):
+        if n in env and n not in state:
+            state.append(n)
+    if not state:
+        raise TErr("while: the body assigns no outer local")
+    state = [n for n in env if n in state]          # declaration order, not order of assignment
+    for n in state:
+        if not env.get("mut:" + n):
+            raise TErr("while: %s is not a `let mut` local" % n)
+    used = walk_vars([cond, body], [])
+    inv = [n for n in env if not n.startswith("mut:") and n in used and n not in state]
+    name = "leaf_wire_%s_loop%d" % (cx.fn, len(cx.loops) + 1)
+    fuel = cx.fresh("fuel")
+    benv = {}
+    for n in inv + state:
+        benv[n] = Val(mangle(n), env[n].t, None)
+        benv["mut:" + n] = env.get("mut:" + n, False)
+    saved_ret = cx.ret
+    cx.loop = {"name": name, "inv": inv, "state": state, "fuel": fuel + "'"}
+    cx.ret = None
+    try:
+        def kc(v):
+            if v.t != "bool":
+                raise TErr("while condition of type %s" % v.t)
+            return "(if %s then %s else (Ok %s))" % (v.s, run(list(body) + [("loop_end",)], benv, cx),
+                                                     state_tuple(state, benv))
+        step = ev(cond, benv, cx, kc)
+    finally:
+        cx.loop = None
+        cx.ret = saved_ret
+    sig = " ".join("(%s : %s)" % (mangle(n), coq_type(env[n].t)) for n in inv + state)
+    sty = " * ".join(coq_type(env[n].t) for n in state)
+    cx.loops.append("Fixpoint %s (%s : nat) %s {struct %s} : res (%s) :=\n  match %s with\n  | O => Fuel\n  | S %s' =>\n    %s\n  end.\n"
+                    % (name, fuel, sig, fuel, sty, fuel, fuel, step))
+    # call site
+    fuel0 = "(S (%s))" % " + ".join("length %s" % p for p in cx.fuel_params)
+    args = [env[n].s for n in inv] + [env[n].s for n in state]
+    env2 = dict(env)
+    news = []
+    for n in state:
+        cn = cx.fresh(mangle(n) + "_")
+        env2[n] = Val(cn, env[n].t)
+        news.append(cn)
+    call = "%s %s %s" % (name, fuel0, " ".join(args))
+    if len(news) == 1:
+        return "(%s <- %s ;; %s)" % (news[0], call, run(rest, env2, cx))
+    st = cx.fresh()
+    return "(%s <- %s ;; (let '(%s) := %s in %s))" % (st, call, ", ".join(news), st, run(rest, env2, cx))
 
 
 def ret_ok(v, cx):
@@ -774,6 +921,8 @@ def run(stmts, env, cx):
             return "(let %s := %s in %s)" % (cn, v2.s, run(rest, env2, cx))
         return ev(s[2], env, cx, kas)
     if k == "return":
+        if cx.loop is not None:
+            raise TErr("return inside a while body")
         if s[1] is None:
             if cx.ret:
                 raise TErr("empty return in a value-returning function")
@@ -785,7 +934,7 @@ def run(stmts, env, cx):
             return run_if(e, rest, env, cx)
         if e[0] in ("iflet", "match"):
             raise TErr("%s not supported" % e[0])
-        if rest:
+        if rest or cx.loop is not None:
             raise TErr("tail expression followed by statements")
         return ev(e, env, cx, lambda v: ret_ok(v, cx))
     if k == "exprstmt":
@@ -812,7 +961,33 @@ def run(stmts, env, cx):
                 env2[dst] = Val(cn, dv.t)
                 return "(%s <- splice %s %s %s %s ;; %s)" % (cn, dv.s, lo.s, hi.s, src.s, run(rest, env2, cx))
             return ev_list([lo_e] + ([hi_e] if hi_e is not None else []) + [e[3][0]], env, cx, kc)
+        if e[0] == "call" and e[1] == "push" and len(e[3]) == 1 and e[2][0] == "var":
+            dst = e[2][1]
+            if dst not in env or not env.get("mut:" + dst) or not (env[dst].t or "").startswith("Vec<"):
+                raise TErr("push target must be a `let mut` vector")
+            dv = env[dst]
+
+            def kp(v):
+                et = dv.t[4:-1]
+                v2 = typed(v, et if et in INTS else None, "push") if v.t is None else v
+                if et != "?" and not compat(v2.t, et):
+                    raise TErr("push of %s onto %s" % (v2.t, dv.t))
+                cn = cx.fresh(mangle(dst) + "_")
+                env2 = dict(env)
+                env2[dst] = Val(cn, dv.t if et != "?" else "Vec<%s>" % (v2.t or "?"))
+                return "(let %s := (%s ++ [%s]) in %s)" % (cn, dv.s, v2.s, run(rest, env2, cx))
+            return ev(e[3][0], env, cx, kp)
         raise TErr("expression statement not supported (possible side effect)")
+    if k == "break":
+        if cx.loop is None:
+            raise TErr("break outside a loop")
+        return "(Ok %s)" % state_tuple(cx.loop["state"], env)
+    if k == "loop_end":
+        lp = cx.loop
+        args = [env[n].s for n in lp["inv"]] + [env[n].s for n in lp["state"]]
+        return "(%s %s %s)" % (lp["name"], lp["fuel"], " ".join(args))
+    if k == "while":
+        return run_while(s, rest, env, cx)
     if k == "for":
         _, var, lo_e, hi_e, body = s
         lo, hi = ev_const_env(lo_e, env, cx), ev_const_env(hi_e, env, cx)
@@ -902,6 +1077,7 @@ def struct_decls(src):
 def translate(fn, src, structs, consts, registry, rel=""):
     params, ret, body = find_fn(src, None, fn)
     cx = Cx(structs, consts, registry)
+    cx.fn = fn
     toks = tokenize(body)
     cx.used |= {v for k, v in toks if k == "id"}
     env, sig, ptypes = {}, [], []
@@ -916,6 +1092,8 @@ def translate(fn, src, structs, consts, registry, rel=""):
         t = norm_type(ty, cx)
         cx.used.add(nm)
         env[nm] = Val(mangle(nm), t)
+        if t == "[u8]" or t.startswith("[u8;"):
+            cx.fuel_params.append(mangle(nm))
         sig.append("(%s : %s)" % (mangle(nm), coq_type(t)))
         ptypes.append(t)
     for t in [v for k, v in toks if k == "id"]:
@@ -926,7 +1104,8 @@ def translate(fn, src, structs, consts, registry, rel=""):
     expr = run(stmts, env, cx)
     rty = "res (%s)" % (coq_type(cx.ret) if cx.ret else "unit")
     doc = "(* %s :: fn %s(%s)%s *)" % (PROTO + rel, fn, " ".join(params.split()), (" -> " + ret) if ret else "")
-    text = "%s\nDefinition leaf_wire_%s %s : %s :=\n  %s.\n" % (doc, fn, " ".join(sig), rty, expr)
+    text = "%s\n%sDefinition leaf_wire_%s %s : %s :=\n  %s.\n" % (doc, "".join(l + "\n" for l in cx.loops), fn,
+                                                                " ".join(sig), rty, expr)
     registry[fn] = {"ptypes": ptypes, "ret": cx.ret}
     return text, {"params": [s for s in sig], "param_types": ptypes, "ret": cx.ret}
 
